@@ -252,6 +252,9 @@ def simple_world(prefix, layers, tests_by_layer, module_layout=None,
     for i, lname in enumerate(keys):
         tests = tests_by_layer[lname]
         cname = 'Test%s' % (lname or 'Unit')
+        if not cname.isidentifier():
+            # (layer names need not be identifiers, class names have to be)
+            cname = 'TestL%d' % i
         node = {'t': 'class', 'name': cname, 'tests': tests}
         if lname is not None:
             node['layer'] = lname
